@@ -53,7 +53,7 @@ func (rt *RateTotal) Validate() error {
 // Validate checks the category code and the rates of the category total.
 func (ct *CategoryTotal) Validate() error {
 	return validation.ValidateStruct(ct,
-		validation.Field(&ct.Code),
+		validation.Field(&ct.Code, validation.Required),
 		validation.Field(&ct.Rates),
 	)
 }
